@@ -2711,6 +2711,20 @@ inductive ArgKeyKind where
   | none | content | identity
   deriving DecidableEq, Repr
 
+/-- where the array a public function returns comes from: built anew by every call (`fresh`),
+    kept by a memoising decorator (`cached`), a module-level object (`constant`), or one of the
+    function's own arguments (`argument`) -/
+inductive ReturnKind where
+  | fresh | cached | constant | argument
+  deriving DecidableEq, Repr
+
+structure ReturnSite where
+  file : String
+  func : String
+  line : Nat
+  kind : ReturnKind
+  deriving DecidableEq, Repr
+
 structure ArgStore where
   file : String
   func : String
@@ -3183,7 +3197,99 @@ C20_ARRAY_ENTRIES = [
     ("oqupy/process_tensor.py", "SimpleProcessTensor.get_mpo_tensor", "self._mpo_tensors[*]", None),
     ("oqupy/process_tensor.py", "SimpleProcessTensor.get_cap_tensor", "self._cap_tensors[*]", None),
     ("oqupy/process_tensor.py", "SimpleProcessTensor.get_initial_tensor", "self._initial_tensor", None),
+    # TwoTimeBathCorrelations keeps the caller's `system_correlations` (object 0 in its methods)
+    ("oqupy/bath_dynamics.py", "TwoTimeBathCorrelations.generate_system_correlations",
+     "self._system_correlations", None),
+    ("oqupy/bath_dynamics.py", "TwoTimeBathCorrelations.occupation", "self._system_correlations", None),
+    ("oqupy/bath_dynamics.py", "TwoTimeBathCorrelations.correlation", "self._system_correlations", None),
 ]
+
+# public functions whose returned arrays must be new objects on every call
+C20_RETURN_ENTRIES = [("oqupy/operators.py", None), ("oqupy/util.py", ["create_delta"])]
+
+_C20_FRESH_CALLS = ("np.identity", "np.eye", "np.array", "np.zeros", "np.ones", "np.empty", "np.full",
+                    "np.kron", "np.outer", "np.diag", "np.dot", "np.matmul", "np.copy", "np.sqrt",
+                    "np.arange", "np.linspace", "np.tensordot", "np.einsum", "np.conj")
+_C20_VIEW_ATTRS = ("T", "real", "imag")
+_C20_VIEW_METHODS = ("flatten", "copy", "conj", "conjugate", "astype")     # these copy
+_C20_ALIAS_METHODS = ("reshape", "view", "transpose", "swapaxes", "ravel", "squeeze")
+
+
+def _c20_return_kind(tab_functions, module_globals, fn, stack=()):
+    """fresh | cached | constant | argument for the arrays `fn` returns"""
+    for d in fn.decorator_list:
+        if "cache" in ast.unparse(d).lower():
+            return "cached"
+    params = {a.arg for a in fn.args.args}
+    local = {}
+    for n in ast.walk(fn):
+        if isinstance(n, ast.Assign) and len(n.targets) == 1 and isinstance(n.targets[0], ast.Name):
+            local.setdefault(n.targets[0].id, []).append(n.value)
+
+    def kind(e, depth=0):
+        if depth > 8:
+            raise Untranslatable("%s: return expression too deep" % fn.name)
+        if isinstance(e, (ast.BinOp, ast.UnaryOp)):
+            return "fresh"                      # numpy arithmetic allocates its result
+        if isinstance(e, ast.Call):
+            f = ast.unparse(e.func)
+            if f in _C20_FRESH_CALLS:
+                return "fresh"
+            if isinstance(e.func, ast.Name) and e.func.id in tab_functions:
+                if e.func.id in stack or e.func.id == fn.name:
+                    return "fresh"
+                return _c20_return_kind(tab_functions, module_globals, tab_functions[e.func.id],
+                                        stack + (fn.name,))
+            if isinstance(e.func, ast.Attribute) and e.func.attr in _C20_VIEW_METHODS:
+                return "fresh"
+            if isinstance(e.func, ast.Attribute) and e.func.attr in _C20_ALIAS_METHODS:
+                return kind(e.func.value, depth + 1)
+            raise Untranslatable("%s returns %s: cannot tell where the array comes from"
+                                 % (fn.name, ast.unparse(e)[:60]))
+        if isinstance(e, ast.Attribute) and e.attr in _C20_VIEW_ATTRS:
+            return kind(e.value, depth + 1)       # a view of ...
+        if isinstance(e, ast.Subscript):
+            return kind(e.value, depth + 1)
+        if isinstance(e, ast.Name):
+            if e.id in local:
+                ks = {kind(v, depth + 1) for v in local[e.id]}
+                for bad in ("cached", "constant", "argument"):
+                    if bad in ks:
+                        return bad
+                return "fresh"
+            if e.id in params:
+                return "argument"
+            if e.id in module_globals:
+                return "constant"
+        raise Untranslatable("%s returns %s: cannot tell where the array comes from"
+                             % (fn.name, ast.unparse(e)[:60]))
+    kinds = [kind(r.value) for r in ast.walk(fn) if isinstance(r, ast.Return) and r.value is not None]
+    if not kinds:
+        raise Untranslatable("%s has no return value" % fn.name)
+    for bad in ("cached", "constant", "argument"):
+        if bad in kinds:
+            return bad
+    return "fresh"
+
+
+def _c20_return_sites(src):
+    out = []
+    for rel, only in C20_RETURN_ENTRIES:
+        tree = src.tree(rel)
+        fns = {n.name: n for n in tree.body if isinstance(n, ast.FunctionDef)}
+        globs = set()
+        for n in tree.body:
+            if isinstance(n, ast.Assign):
+                for t in n.targets:
+                    if isinstance(t, ast.Name):
+                        globs.add(t.id)
+        names = only if only is not None else [n for n in fns if not n.startswith("_")]
+        for name in names:
+            if name not in fns:
+                raise Untranslatable("%s has no function %s" % (rel, name))
+            out.append((rel, name, fns[name].lineno, _c20_return_kind(fns, globs, fns[name])))
+    return out
+
 
 # `.shape = ` stores on arrays that are not user input: (file, function) -> why
 C20_INTERNAL_SHAPE_STORES = {
@@ -3197,7 +3303,10 @@ class _ArrayFlow:
 
     VIEW_FUNCS = ("np.moveaxis", "np.swapaxes", "np.transpose", "np.squeeze", "np.expand_dims",
                   "np.diagonal", "np.real", "np.imag", "np.ravel", "np.atleast_1d", "np.atleast_2d")
-    NEW_FUNCS = ("np.dot", "np.matmul", "np.tensordot", "np.einsum", "np.kron", "np.conj",
+    # functions that write into their first argument when called with copy=False
+    INPLACE_WITH_COPY_FALSE = ("np.nan_to_num",)
+    NEW_FUNCS = ("np.nan_to_num", "np.pad", "np.append", "np.concatenate", "np.cumsum",
+                 "np.dot", "np.matmul", "np.tensordot", "np.einsum", "np.kron", "np.conj",
                  "np.conjugate", "np.multiply", "np.add", "np.subtract", "np.exp", "np.sum",
                  "util.create_delta", "create_delta", "np.outer", "np.linalg.multi_dot")
 
@@ -3323,6 +3432,17 @@ class _ArrayFlow:
                     if self.first_line is None:
                         self.first_line = e.lineno
                     return tgt
+        kwd = {k.arg: k.value for k in e.keywords if k.arg}
+        if "copy" in kwd and isinstance(kwd["copy"], ast.Constant) and kwd["copy"].value is False \
+                and e.args and fname not in ("np.array", "np.asarray"):
+            tgt = self.value_obj(e.args[0])
+            if tgt is not None:
+                if fname in self.INPLACE_WITH_COPY_FALSE:
+                    self.ops.append("(.writeData %d)" % tgt)      # f(x, copy=False) works in x
+                    if self.first_line is None:
+                        self.first_line = e.lineno
+                    return tgt
+                return self.new_obj("(.viewOf %d)" % tgt, e.lineno)   # may be x itself
         if fname in self.VIEW_FUNCS and e.args:
             src = self.value_obj(e.args[0])
             if src is not None:
@@ -3468,6 +3588,10 @@ class _ArrayFlow:
             self.scan_calls(v)
             if tname in self.names and tname != self.var:
                 del self.names[tname]
+            elif tname == self.var and self.var.startswith("self."):
+                # the attribute now holds an array made by the library; object 0 stays the
+                # array that was stored first
+                self.names[tname] = self.new_obj("(.computed)", s.lineno)
             elif tname == self.var:
                 raise Untranslatable("%s:%s: `%s` is re-bound to %s" % (self.rel, self.qual, self.var,
                                                                           ast.unparse(v)))
@@ -3834,6 +3958,10 @@ def frag_cachekeys(src):
         notes += ["%s:%s %s" % (r, q, w) for w in why]
     out.append("/-- what the parameterised system and the gradient functions keep from one call to "
                "the next -/\ndef argStores : List ArgStore := [\n%s\n]\n" % ",\n".join(srow))
+    rrow = ["  { file := %s, func := %s, line := %d, kind := .%s }" % (_lstr(r), _lstr(q), l, k)
+            for r, q, l, k in _c20_return_sites(src)]
+    out.append("/-- where the arrays returned by the public operator helpers come from -/\n"
+               "def returnSites : List ReturnSite := [\n%s\n]\n" % ",\n".join(rrow))
     if notes:
         out.append("/- notes\n%s\n-/\n" % "\n".join("  " + n for n in notes))
     return "\n".join(out)
@@ -4027,9 +4155,23 @@ def _ff_lean_str(s):
     return '"%s"' % s
 
 
+FF_ATTR_ALIASES = set()      # local names bound to (a copy of) self._f.attrs in the function at hand
+
+
+def _ff_find_attr_aliases(fn):
+    FF_ATTR_ALIASES.clear()
+    for n in ast.walk(fn):
+        if isinstance(n, ast.Assign) and len(n.targets) == 1 and isinstance(n.targets[0], ast.Name):
+            u = ast.unparse(n.value)
+            if u in ("self._f.attrs", "dict(self._f.attrs)"):
+                FF_ATTR_ALIASES.add(n.targets[0].id)
+
+
 def _ff_is_attr_sub(node, key=None):
-    """`self._f.attrs[<const>]`"""
-    if isinstance(node, ast.Subscript) and attr_chain(node.value) == ["self", "_f", "attrs"] \
+    """`self._f.attrs[<const>]` (or the same through a local alias)"""
+    if isinstance(node, ast.Subscript) and (
+            attr_chain(node.value) == ["self", "_f", "attrs"] or
+            (isinstance(node.value, ast.Name) and node.value.id in FF_ATTR_ALIASES)) \
             and isinstance(node.slice, ast.Constant) and isinstance(node.slice.value, str):
         return key is None or node.slice.value == key
     return False
@@ -4082,6 +4224,7 @@ def _ff_read_file(src, out):
                % (FF_REL, opens[0].lineno, ast.unparse(opens[0]),
                   _ff_lean_str(opens[0].args[1].value)))
     # (2) the test that triggers the corruption warning
+    _ff_find_attr_aliases(fn)
     ifs = [n for n in ast.walk(fn) if isinstance(n, ast.If) and _ff_mentions_writing(n.test)]
     if len(ifs) != 1:
         raise Untranslatable("_read_file: expected exactly one `if` testing attrs['writing'], "
@@ -4096,6 +4239,13 @@ def _ff_read_file(src, out):
     out.append("/-- %s:%d  _read_file: `if %s: warnings.warn(...)` -/\n"
                "def readWarn (v : PyVal) : Bool := PyVal.truthy %s\n"
                % (FF_REL, node.lineno, ast.unparse(node.test), term))
+    # is that `if` a statement of the function body itself (reached on every path that gets
+    # past the attribute reads), or does it hang under another condition (elif/else/if/try)?
+    top = any(st is node for st in fn.body)
+    out.append("/-- %s:%d  _read_file: the test on attrs['writing'] is a top-level statement "
+               "(not an elif/else branch or otherwise nested under another condition) -/\n"
+               "def readWarnUnconditional : Bool := %s\n"
+               % (FF_REL, node.lineno, "true" if top else "false"))
 
     # (3) keys accessed outside a try/except KeyError
     attrs, arrs, vls = [], [], []
@@ -4117,7 +4267,8 @@ def _ff_read_file(src, out):
                 isinstance(n.slice, ast.Constant) and isinstance(n.slice.value, str):
             ch = attr_chain(n.value)
             key = n.slice.value
-            if ch == ["self", "_f", "attrs"]:
+            if ch == ["self", "_f", "attrs"] or (isinstance(n.value, ast.Name) and
+                                                 n.value.id in FF_ATTR_ALIASES):
                 if key not in FF_ATTRS:
                     raise Untranslatable("_read_file reads unknown attribute %r" % key)
                 if FF_ATTRS[key] not in attrs:
@@ -4163,14 +4314,31 @@ def _ff_close(src, out):
             not isinstance(g.body[0].value, ast.Constant) or \
             not isinstance(g.body[0].value.value, bool):
         raise Untranslatable("close(): the guarded statement is not attrs['writing'] = <bool>")
+    FF_ATTR_ALIASES.clear()
+    extra = []
+
+    def unknown(n):
+        # any other operand of an and/or (a helper call, a look at the datasets, ...):
+        # translated as True, and reported through closeResetPure
+        if isinstance(n, (ast.Call, ast.Attribute, ast.Name)) and not _ff_is_attr_sub(n, "writing") \
+                and attr_chain(n) != ["self", "_write"] and \
+                not (isinstance(n, ast.Call) and attr_chain(n.func) == ["bool"]):
+            extra.append(ast.unparse(n))
+            return True
+        return False
     atoms = [(lambda n: _ff_is_attr_sub(n, "writing"), "v"),
-             (lambda n: attr_chain(n) == ["self", "_write"], "(PyVal.ofBool write)")]
+             (lambda n: attr_chain(n) == ["self", "_write"], "(PyVal.ofBool write)"),
+             (unknown, "PyVal.pyTrue")]
     term = _ff_pyval(g.test, atoms)
     out.append("/-- %s:%d  close(): `if %s: %s` then `self._f.close()` -/\n"
                "def closeReset (write : Bool) (v : PyVal) : Bool := PyVal.truthy %s\n"
                "def closeValue : Bool := %s\n"
                % (FF_REL, g.lineno, ast.unparse(g.test), ast.unparse(g.body[0]), term,
                   "true" if g.body[0].value.value else "false"))
+    out.append("/-- close(): the guard depends on nothing but `self._write` and the flag itself%s -/\n"
+               "def closeResetPure : Bool := %s\n"
+               % ("; other operands (taken as True above): " + ", ".join(extra) if extra else "",
+                  "false" if extra else "true"))
 
 
 def _ff_const_bool(node):
@@ -4957,7 +5125,8 @@ def frag_fileflags(src):
                "    ptTempoSimpleInit := ptTempoSimpleInit, ptTempoFileInit := ptTempoFileInit,\n"
                "    exportUnwind := exportUnwind, ptTempoUnwind := ptTempoUnwind,\n"
                "    writingAssignments := writingAssignments, computeCapsTail := computeCapsTail,\n"
-               "    importMpoTransformed := importMpoTransformed, importCopiesCaps := importCopiesCaps }\n")
+               "    importMpoTransformed := importMpoTransformed, importCopiesCaps := importCopiesCaps,\n"
+               "    readWarnUnconditional := readWarnUnconditional, closeResetPure := closeResetPure }\n")
     return "\n".join(out)
 # end of FileFlags
 
@@ -5363,6 +5532,22 @@ def _pg_spawn_sites(src, progress_classes):
                 elif isinstance(tgt, ast.Name):
                     scope = "localVar" if quals else "stored"
             sites.append((rel, func, n.lineno, PG_SPAWN[name], scope))
+        # a spawn class that is mentioned without being called in place (bound to a variable,
+        # passed on, ...) escapes the classification above: recorded with scope `other`
+        called = {id(n.func) for n in ast.walk(tree) if isinstance(n, ast.Call)}
+        for n in ast.walk(tree):
+            name = n.id if isinstance(n, ast.Name) else n.attr if isinstance(n, ast.Attribute) \
+                else None
+            if name in PG_SPAWN and isinstance(getattr(n, "ctx", None), ast.Load) \
+                    and id(n) not in called:
+                quals = []
+                q = parent.get(id(n))
+                while q is not None:
+                    if isinstance(q, (ast.FunctionDef, ast.AsyncFunctionDef, ast.ClassDef)):
+                        quals.append(q.name)
+                    q = parent.get(id(q))
+                sites.append((rel, ".".join(reversed(quals)) or "<module>", n.lineno,
+                              PG_SPAWN[name], "other"))
     return sites
 
 
@@ -5649,6 +5834,34 @@ def _te_callee(call):
     return None
 
 
+# ids of Name nodes that are loop / comprehension variables with a time-like name whose iterable
+# is not derived from a time (e.g. `for t in PROBE_TIMES`); set per function by _te_fixed_loop_vars
+_TE_FIXED_IDS = set()
+
+
+def _te_fixed_loop_vars(fn, roles):
+    """Name nodes (ids) and (node, variable, iterable text) of loops whose variable carries a time
+    role by name but runs over something that is not a time of the computation"""
+    ids, loops = set(), []
+    for n in ast.walk(fn):
+        gens = []
+        if isinstance(n, (ast.ListComp, ast.SetComp, ast.GeneratorExp, ast.DictComp)):
+            gens = [(g.target, g.iter, n) for g in n.generators]
+        elif isinstance(n, ast.For):
+            gens = [(n.target, n.iter, n)]
+        for tgt, it, scope in gens:
+            names = [x.id for x in ast.walk(tgt) if isinstance(x, ast.Name)]
+            tnames = [x for x in names if roles.get(x) == "T"]
+            if not tnames or _te_mentions_time(it, roles):
+                continue
+            for x in ast.walk(scope):
+                if isinstance(x, ast.Name) and x.id in tnames and isinstance(x.ctx, ast.Load):
+                    ids.add(id(x))
+            for v in tnames:
+                loops.append((scope, v, _te_norm(it)))
+    return ids, loops
+
+
 class _TEWalker:
     """one expression  ->  Lean `TExpr` text + variable tables"""
 
@@ -5718,6 +5931,9 @@ class _TEWalker:
             raise Untranslatable("constant %r in a time expression" % (e.value,))
         nm = _te_varname(e)
         if nm is not None:
+            if id(e) in _TE_FIXED_IDS:
+                # a loop variable that runs over fixed numbers, not over times of the computation
+                return "(.var %d)" % self.fvar(nm + "_fixed", False)
             r = self.role(nm)
             if r is None:
                 raise Untranslatable("no role known for variable %r in a time expression" % nm)
@@ -5835,6 +6051,8 @@ def _te_roles_for(rel, qual):
 def _te_scan(rel, qual, fn, inherited, sites):
     """`inherited`: function index  name -> [(file, qualname, formal parameter names)]"""
     roles = _te_roles_for(rel, qual)
+    global _TE_FIXED_IDS
+    _TE_FIXED_IDS = _te_fixed_loop_vars(fn, roles)[0]
     nodes = _te_own_nodes(fn)
     covered = set()
     found = []          # (sink, role, expr node, stmt node)
@@ -6024,7 +6242,23 @@ def _te_float_consts(fn):
             and isinstance(v[0].value, float)}
 
 
-def _te_probe_time(call, consts, params):
+def _te_module_consts(tree):
+    """module level names bound to a float literal or a tuple/list of float literals"""
+    out = {}
+    for st in tree.body:
+        if isinstance(st, ast.Assign) and len(st.targets) == 1 and isinstance(st.targets[0], ast.Name):
+            v = st.value
+            if isinstance(v, ast.Constant) and isinstance(v.value, float):
+                out[st.targets[0].id] = _te_norm(v)
+            elif isinstance(v, (ast.Tuple, ast.List)) and v.elts and all(
+                    isinstance(x, ast.Constant) and isinstance(x.value, (int, float))
+                    and not isinstance(x.value, bool) for x in v.elts) \
+                    and any(isinstance(x.value, float) for x in v.elts):
+                out[st.targets[0].id] = _te_norm(v)
+    return out
+
+
+def _te_probe_time(call, consts, params, fixed=None, modconsts=None):
     """source text of the fixed time a call hands to a (possibly user supplied) callable"""
     ch = attr_chain(call.func)
     if ch is None:
@@ -6036,6 +6270,10 @@ def _te_probe_time(call, consts, params):
             return repr(a.value)
         if isinstance(a, ast.Name) and a.id in consts:
             return "%s = %r" % (a.id, consts[a.id])
+        if isinstance(a, ast.Name) and fixed and id(a) in fixed:
+            return "%s in %s" % (a.id, fixed[id(a)])
+        if isinstance(a, ast.Name) and modconsts and a.id in modconsts and a.id not in params:
+            return "%s = %s" % (a.id, modconsts[a.id])
         if isinstance(a, ast.Starred) and len(ch) == 1 and ch[0] in params:
             return "*" + _te_norm(a.value)      # a parameter called with forwarded arguments
     return None
@@ -6056,6 +6294,10 @@ def _te_kept(node, parent_of, fn, depth=0):
         if nm in TE_VALIDATORS:
             up = _te_kept(par, parent_of, fn, depth + 1)
             return {("validate" if k == "discard" else k) for k in up}
+        if isinstance(par.func, ast.Name):
+            # handed to a plain function: what survives is what survives of its result
+            up = _te_kept(par, parent_of, fn, depth + 1)
+            return {("unknown" if k == "discard" else k) for k in up}
         return {"unknown"}
     if isinstance(par, ast.Attribute) and par.value is node:
         if par.attr == "shape":
@@ -6065,6 +6307,9 @@ def _te_kept(node, parent_of, fn, depth=0):
         return {"unknown"}
     if isinstance(par, ast.Return):
         return {"value"}
+    if isinstance(par, (ast.List, ast.Tuple, ast.ListComp, ast.GeneratorExp, ast.Subscript,
+                        ast.BinOp, ast.UnaryOp)):
+        return _te_kept(par, parent_of, fn, depth + 1)       # containers / arithmetic hand it on
     if isinstance(par, (ast.Assign, ast.AnnAssign)):
         tgts = par.targets if isinstance(par, ast.Assign) else [par.target]
         if len(tgts) == 1 and isinstance(tgts[0], ast.Name):
@@ -6082,9 +6327,30 @@ def _te_probes(src):
     probes = []
     for rel in TE_PROBE_FILES:
         tree = src.tree(rel)
+        modconsts = _te_module_consts(tree)
         for qual, fn in _te_functions(tree):
             consts = _te_float_consts(fn)
             params = {a.arg for a in fn.args.args}
+            roles = _te_roles_for(rel, qual)
+            fixed = {}
+            for n in ast.walk(fn):
+                gens = []
+                if isinstance(n, (ast.ListComp, ast.SetComp, ast.GeneratorExp, ast.DictComp)):
+                    gens = [(g.target, g.iter, n) for g in n.generators]
+                elif isinstance(n, ast.For):
+                    gens = [(n.target, n.iter, n)]
+                for tgt, it, scope in gens:
+                    # loop variables running over literal numbers or a module constant
+                    lit = isinstance(it, (ast.Tuple, ast.List)) and it.elts and all(
+                        isinstance(x, ast.Constant) and isinstance(x.value, (int, float))
+                        for x in it.elts)
+                    mod = isinstance(it, ast.Name) and it.id in modconsts and it.id not in params
+                    if not (lit or mod):
+                        continue
+                    names = {x.id for x in ast.walk(tgt) if isinstance(x, ast.Name)}
+                    for x in ast.walk(scope):
+                        if isinstance(x, ast.Name) and x.id in names and isinstance(x.ctx, ast.Load):
+                            fixed[id(x)] = _te_norm(it) + (" = " + modconsts[it.id] if mod else "")
             parent_of = {}
             for n in ast.walk(fn):
                 for ch in ast.iter_child_nodes(n):
@@ -6093,7 +6359,7 @@ def _te_probes(src):
             for n in own:
                 if not isinstance(n, ast.Call):
                     continue
-                t = _te_probe_time(n, consts, params)
+                t = _te_probe_time(n, consts, params, fixed, modconsts)
                 if t is None:
                     continue
                 kept = sorted(_te_kept(n, parent_of, fn))
@@ -11529,6 +11795,125 @@ def frag_corrbath(src):
     vals = [ast.unparse(h.value) for h in src.assignment(focc, "bath_occupation")]
     out.append("/-- how the returned occupation values are built (one per column sum, plus the "
                "leading 0) -/\ndef occupation_values : List String := %s\n" % _c07_lstrs(vals))
+    # the initial bath contribution (thermal occupation n_th, vacuum +1) of correlation()/occupation():
+    # the block is *evaluated* for every combination of its conditions and tabulated
+    import collections
+
+    def thermal_of(e):
+        m = None
+        for fv in ("freq_1", "freq_2", "freq"):
+            if ast.unparse(e) == "np.exp(-%s / self._temp) / (1 - np.exp(-%s / self._temp))" % (fv, fv):
+                m = fv
+        return m
+
+    def ev_cond(e, env, where):
+        if isinstance(e, ast.BoolOp):
+            vals = [ev_cond(v, env, where) for v in e.values]
+            return all(vals) if isinstance(e.op, ast.And) else any(vals)
+        if isinstance(e, ast.UnaryOp) and isinstance(e.op, ast.Not):
+            return not ev_cond(e.operand, env, where)
+        if isinstance(e, ast.Name) and e.id == "change_only":
+            return env["change_only"]
+        txt = ast.unparse(e)
+        if txt == "self._temp > 0":
+            return env["temp_pos"]
+        if txt in ("freq_1 == freq_2", "freq_2 == freq_1") and "freq_equal" in env:
+            return env["freq_equal"]
+        if isinstance(e, ast.Compare) and len(e.ops) == 1 and isinstance(e.left, ast.Name) \
+                and e.left.id == "dagg" and "dagg" in env:
+            try:
+                rhs = ast.literal_eval(e.comparators[0])
+            except ValueError:
+                raise Untranslatable("%s: condition %s" % (where, txt))
+            if isinstance(e.ops[0], ast.Eq):
+                return env["dagg"] == rhs
+            if isinstance(e.ops[0], ast.NotEq):
+                return env["dagg"] != rhs
+            if isinstance(e.ops[0], ast.In):
+                return env["dagg"] in rhs
+        raise Untranslatable("%s: condition %s" % (where, txt))
+
+    def ev_terms(e, env, loc, where):
+        if isinstance(e, ast.BinOp) and isinstance(e.op, ast.Add):
+            return ev_terms(e.left, env, loc, where) + ev_terms(e.right, env, loc, where)
+        if isinstance(e, ast.Constant) and e.value == 1 and not isinstance(e.value, bool):
+            return collections.Counter(one=1)
+        if isinstance(e, ast.Name) and e.id in loc:
+            return collections.Counter(loc[e.id])
+        fv = thermal_of(e)
+        if fv is not None:
+            if fv == "freq_2" and not env.get("freq_equal", False):
+                return collections.Counter(n_th_other=1)
+            return collections.Counter(n_th=1)
+        raise Untranslatable("%s: added term %s" % (where, ast.unparse(e)))
+
+    def run_block(stmts, env, loc, acc, target, where):
+        for st in stmts:
+            if isinstance(st, ast.If):
+                run_block(st.body if ev_cond(st.test, env, where) else st.orelse, env, loc, acc,
+                          target, where)
+            elif isinstance(st, ast.Assign) and len(st.targets) == 1 \
+                    and isinstance(st.targets[0], ast.Name) and st.targets[0].id != target:
+                loc[st.targets[0].id] = ev_terms(st.value, env, loc, where)
+            elif isinstance(st, ast.AugAssign) and isinstance(st.op, ast.Add) \
+                    and isinstance(st.target, ast.Name) and st.target.id == target:
+                acc.update(ev_terms(st.value, env, loc, where))
+            else:
+                raise Untranslatable("%s: statement %s" % (where, ast.unparse(st)[:80]))
+
+    fcor = src.function(rel, "TwoTimeBathCorrelations.correlation")
+    body = [st for st in fcor.body if not (isinstance(st, ast.Expr) and isinstance(st.value, ast.Constant))]
+    i0 = [i for i, st in enumerate(body) if isinstance(st, ast.Assign)
+          and ast.unparse(st.targets[0]) == "correlation"]
+    i1 = [i for i, st in enumerate(body) if isinstance(st, ast.If)
+          and ast.unparse(st.test) == "not interaction_picture"]
+    if len(i0) != 1 or len(i1) != 1 or not i0[0] < i1[0] or i1[0] != len(body) - 2 \
+            or ast.unparse(body[-1]) != "return correlation":
+        raise Untranslatable("correlation: layout of the final statements")
+    block = body[i0[0] + 1:i1[0]]
+    phase = body[i1[0]]
+    if len(phase.body) != 1 or not (isinstance(phase.body[0], ast.AugAssign)
+                                    and isinstance(phase.body[0].op, ast.Mult)) or phase.orelse:
+        raise Untranslatable("correlation: interaction-picture phase")
+    rows = []
+    for co in (False, True):
+        for tp in (False, True):
+            for fe in (False, True):
+                for dg in ((0, 0), (0, 1), (1, 0), (1, 1)):
+                    acc = collections.Counter()
+                    run_block(block, {"change_only": co, "temp_pos": tp, "freq_equal": fe, "dagg": dg},
+                              {}, acc, "correlation", "correlation/initial contribution")
+                    rows.append("(%s, %s, %s, %d, %d, %d, %d, %d)" % (
+                        str(co).lower(), str(tp).lower(), str(fe).lower(), dg[0], dg[1],
+                        acc["n_th"], acc["one"], acc["n_th_other"]))
+    out.append("/-- %s:%d  correlation(): what is added to the kernel sum before the interaction-picture "
+               "phase, for every (change_only, T > 0, freq_1 == freq_2, dagg): "
+               "(.., number of n_th(freq_1) terms, number of +1 terms, thermal terms of another "
+               "frequency) -/\n"
+               "def correlation_initial_table : List (Bool × Bool × Bool × Nat × Nat × Nat × Nat × Nat) :=\n"
+               "  [%s]\n" % (rel, block[0].lineno if block else fcor.lineno, ",\n   ".join(rows)))
+    out.append("/-- the phase `%s` multiplies the sum including the initial contribution -/\n"
+               "def correlation_phase : String := %s\n"
+               % (ast.unparse(phase.body[0]).replace("-/", "- /"), _c07_lstr(ast.unparse(phase.body[0].value))))
+    obody = [st for st in focc.body if not (isinstance(st, ast.Expr) and isinstance(st.value, ast.Constant))]
+    j0 = [i for i, st in enumerate(obody) if isinstance(st, ast.Assign)
+          and ast.unparse(st.targets[0]) == "bath_occupation"]
+    if not j0 or not isinstance(obody[-1], ast.Return) \
+            or ast.unparse(obody[-1].value) != "(tlist, bath_occupation)":
+        raise Untranslatable("occupation: layout of the final statements")
+    oblock = obody[j0[-1] + 1:-1]
+    orows = []
+    for co in (False, True):
+        for tp in (False, True):
+            acc = collections.Counter()
+            run_block(oblock, {"change_only": co, "temp_pos": tp}, {}, acc, "bath_occupation",
+                      "occupation/initial contribution")
+            orows.append("(%s, %s, %d, %d)" % (str(co).lower(), str(tp).lower(), acc["n_th"],
+                                                acc["one"] + acc["n_th_other"]))
+    out.append("/-- %s  occupation(): what is added to every occupation value, for every "
+               "(change_only, T > 0): (.., number of n_th(freq) terms, other terms) -/\n"
+               "def occupation_initial_table : List (Bool × Bool × Nat × Nat) :=\n  [%s]\n"
+               % (rel, ", ".join(orows)))
     # other int()/np.round/np.floor/np.ceil conversions in the class would be a new site
     fcls = src.function(rel, "TwoTimeBathCorrelations")
     conv = sorted(ast.unparse(n) for n in ast.walk(fcls) if isinstance(n, ast.Call)
